@@ -131,6 +131,7 @@ impl <N: Floating> ArrayFloating<N> for Array<N> {
             let mut sig: f64 = 0.0;
             let mut exp: i32 = 0;
             if x == 0.0 { return (sig, exp); }
+            if !x.is_finite() { return (x * sign, exp); }
 
             while x >= 1.0 { x /= 2.0; exp += 1; }
             while x < 0.5 { x *= 2.0; exp -= 1; }
